@@ -13,6 +13,7 @@ after) with that model and returns the breaches.
 """
 import hashlib
 import json
+import re
 
 # type key -> table
 TABLES = {
@@ -56,9 +57,13 @@ def dump(conn):
     return out
 
 
+_REQ = re.compile(r'req-[0-9a-f]{8}-[0-9a-f-]{27}')
+
+
 def state_hash(d):
+    # oslo.context request ids (random) are stored in execution contexts
     return hashlib.blake2b(
-        json.dumps(d, sort_keys=True, default=str).encode(),
+        _REQ.sub('req-x', json.dumps(d, sort_keys=True, default=str)).encode(),
         digest_size=12).hexdigest()
 
 
